@@ -294,6 +294,9 @@ def _account(st, fr, sched, eof_cls, label):
     h.update(eof_cls.encode())
     h.update(repr(len(fr.received)).encode())
     st['digests'][h.hexdigest()[:16]] = True
+    from scenarios import s1
+    if s1.WANT_RUN_DIGESTS[0]:
+        st.setdefault('run_digests', []).append(sim.digest())
 
 
 def run_task(task):
